@@ -161,6 +161,10 @@ func (s *JSONDB) ReadStatusToday(dagFile string) (*model.Status, error) {
 		}
 		lastErr = err
 	}
+	if errors.Is(lastErr, io.EOF) {
+		// none of the files holds a status
+		return nil, persistence.ErrNoStatusData
+	}
 	return nil, lastErr
 }
 
